@@ -44,11 +44,15 @@ package goja
 //@   ensures_abrupt @ggNoNewMarkers [no-marker-left-behind]
 //@   assigns @ggFrame
 
+// yield* evaluates GetIterator inside the generator: the generator is running while the iterable's
+// [Symbol.iterator]() executes, and still running while the body handles a failure of GetIterator.
 //@ func (*generatorObject).delegate
 //@   props C09
-//@   requires g != nil && g.gen.vm != nil && g.state != genStateExecuting
+//@   requires g != nil && g.gen.vm != nil && g.state == genStateExecuting
+//@   site try#1 vars g *generatorObject
+//@   site try#1 requires g.state == genStateExecuting [GetIterator-runs-in-the-executing-state]
 //@   site nextThrow#1 vars g *generatorObject
-//@   site nextThrow#1 requires g.delegated == nil [no-delegate-when-GetIterator-failed]
+//@   site nextThrow#1 requires g.delegated == nil && g.state == genStateExecuting [failure-is-thrown-into-a-running-generator-without-delegate]
 //@   ensures g.state != genStateExecuting [settled]
 //@   ensures_abrupt g.state != genStateExecuting [settled-on-panic]
 //@   ensures @ggMarkersKept [markers-kept]
